@@ -232,8 +232,8 @@ def proof_obligations(pid):
 
 class Group:
     """one correspondence group: cases of one Coq type checked by one boolean checker"""
-    def __init__(self, name, requires, ctype, checker):
-        self.name, self.requires, self.ctype, self.checker = name, requires, ctype, checker
+    def __init__(self, name, requires, ctype, checker, shard=300):
+        self.name, self.requires, self.ctype, self.checker, self.shard = name, requires, ctype, checker, shard
 
 def _run_shard(args):
     path, = args
@@ -245,10 +245,11 @@ def _run_shard(args):
     except subprocess.TimeoutExpired:
         return 124, "timeout"
 
-def coq_mismatches(pid, group, literals, shard=300):
+def coq_mismatches(pid, group, literals, shard=None):
     """evaluate the model on every literal inside Coq; returns (list of mismatching indices, error or None)"""
     if not literals:
         return [], None
+    shard = shard or group.shard
     d = os.path.join(WORK, pid)
     os.makedirs(d, exist_ok=True)
     paths = []
